@@ -11,7 +11,10 @@
    - c_comp_inverse  : a plain component gets the inverse PERM behind it, like a processor (old: PERM in front only);
    - c_ps_shift_first: the added processor's post-selection is shifted by c_first and THEN permuted with
                        first = c_first (old: permuted first, then shifted);
-   - c_name_to_int   : a dictionary entry `port name -> int` is accepted for one-mode ports (old: always refused).
+   - c_name_to_int   : a dictionary entry `port name -> int` is accepted for one-mode ports (old: always refused);
+   - c_port_consecutive (6d353ebc): a non-herald port of the added processor is re-attached at the image of its first
+                       mode only when ALL its modes are mapped to consecutive modes in order, else dropped (old:
+                       always re-attached on consecutive modes from the image of the first one).
    `simplify` and the fusion of two consecutive PERMs are matrix-preserving by contract (C11) and are not
    modelled: the state keeps the matrix of the component list, not the list. *)
 From PV Require Export Model.Select Model.Components.
@@ -29,9 +32,11 @@ Fixpoint dset (d : amap) (k : Z) (v : nat) : amap :=
   | (k', v') :: r => if (k' =? k)%Z then (k', v) :: r else (k', v') :: dset r k v
   end.
 
-Record cfg := { c_comp_inverse : bool; c_ps_shift_first : bool; c_name_to_int : bool }.
-Definition cfg_now : cfg := {| c_comp_inverse := true; c_ps_shift_first := true; c_name_to_int := true |}.
-Definition cfg_old : cfg := {| c_comp_inverse := false; c_ps_shift_first := false; c_name_to_int := false |}.
+Record cfg := { c_comp_inverse : bool; c_ps_shift_first : bool; c_name_to_int : bool; c_port_consecutive : bool }.
+Definition cfg_now : cfg := {| c_comp_inverse := true; c_ps_shift_first := true; c_name_to_int := true;
+                             c_port_consecutive := true |}.
+Definition cfg_old : cfg := {| c_comp_inverse := false; c_ps_shift_first := false; c_name_to_int := false;
+                             c_port_consecutive := false |}.
 
 Inductive mkey := KInt (k : Z) | KName (s : nat).
 Inductive mval := VInt (v : nat) | VName (s : nat) | VList (l : list nat).
@@ -315,8 +320,12 @@ Definition add_comp (e : exp) (mp : mapping) (k : nat) (Uc : mat R) (keep : bool
 Definition key_of (m : nmap) (v : nat) : nat :=
   match find (fun kv => snd kv =? v) m with Some kv => fst kv | None => 0 end.
 
+(* [inverse_mapping[r] for r in port_range] == new_range (only tested since 6d353ebc) *)
+Definition port_kept (cons : bool) (m' : nmap) (p : pent) (r : list nat) : bool :=
+  negb cons || (if list_eq_dec Nat.eq_dec (map (key_of m') (p_range p)) r then true else false).
+
 (* transfer of the added experiment's output ports, then of its input ports *)
-Definition transfer_out (m' : nmap) (st : exp * bool) (p : pent) : exp * bool :=
+Definition transfer_out (cons : bool) (m' : nmap) (st : exp * bool) (p : pent) : exp * bool :=
   let (e, ok) := st in
   if ok then
     let pm := key_of m' (hd 0 (p_range p)) in
@@ -324,16 +333,16 @@ Definition transfer_out (m' : nmap) (st : exp * bool) (p : pent) : exp * bool :=
     | PkHerald ex => add_herald_int e pm ex (match p_name p with NUser id => Some id | NAuto _ => None end)
     | PkPort _ =>
         let r := seq pm (length (p_range p)) in
-        if free (e_out e) r
+        if port_kept cons m' p r && free (e_out e) r
         then (with_ports e (e_in e) (e_out e ++ [{| p_kind := p_kind p; p_name := p_name p; p_range := r |}])
                          (e_types e) (e_anon e), true)
         else (e, true)
     end
   else st.
-Definition transfer_in (m' : nmap) (e : exp) (p : pent) : exp :=
+Definition transfer_in (cons : bool) (m' : nmap) (e : exp) (p : pent) : exp :=
   let pm := key_of m' (hd 0 (p_range p)) in
   let r := seq pm (length (p_range p)) in
-  if free (e_in e) r
+  if port_kept cons m' p r && free (e_in e) r
   then with_ports e (e_in e ++ [{| p_kind := p_kind p; p_name := p_name p; p_range := r |}]) (e_out e)
                   (e_types e) (e_anon e)
   else e.
@@ -370,10 +379,10 @@ Definition add_proc (e : exp) (mp : mapping) (r : exp) (keep : bool)
                        e_U := tb n (mmul n (tb n (proc_step n mn pv (csize r) (e_U r))) (embed 0 nL (e_U e1)));
                        e_in := e_in e1; e_out := e_out e1; e_dets := e_dets e1; e_ps := e_ps e1;
                        e_anon := e_anon e1 |} in
-          match fold_left (transfer_out m') (e_out r) (e2, true) with
+          match fold_left (transfer_out (c_port_consecutive cf) m') (e_out r) (e2, true) with
           | (e3, false) => (e3, false, None)
           | (e3, true) =>
-              let e4 := fold_left (transfer_in m') (e_in r) e3 in
+              let e4 := fold_left (transfer_in (c_port_consecutive cf) m') (e_in r) e3 in
               match e_ps r with
               | None => (e4, true, Some (mn, pv, m))
               | Some q =>
